@@ -531,13 +531,13 @@ def scanrun_validate(ctx, pid, label="scanrun"):
         res = list(ex.map(one, runs))
     first = next((e for e, (ok, _i) in zip(runs, res) if ok and len(e["probes"]) >= 2), None)
     if first is not None and os.environ.get("VF_SELFTEST", "1") == "1" and "ScanRunTrace" not in getattr(ctx, "_selftested", set()):
-        ev = scanrun_events(dict(first, probes=first["probes"][1:]))
+        ev = scanrun_events(dict(first, probes=[first["probes"][0]] + first["probes"]))      # a probe sent twice (valid also for runs with a Ctrl-C)
         p = os.path.join(ctx.scratch, "%s-selftest.ndjson" % label)
         vf.write_ndjson(p, ev)
         ok, _ = ctx.tlc_trace("ScanRunTrace", p, timeout=900)
         if ok:
-            raise vf.Inconclusive("binding self-test failed: ScanRunTrace accepted a run with its first probe removed")
-        ctx.step("selftest-ScanRunTrace", corrupted="first probe of an accepted run removed", rejected=True)
+            raise vf.Inconclusive("binding self-test failed: ScanRunTrace accepted a run with its first probe repeated")
+        ctx.step("selftest-ScanRunTrace", corrupted="first probe of an accepted run repeated", rejected=True)
         ctx._selftested = getattr(ctx, "_selftested", None) or set()
         ctx._selftested.add("ScanRunTrace")
     bad = []
